@@ -287,3 +287,132 @@ fn sp_set_wrappers() {
     kani::cover!(k1 != k2 && r == k1, "remove one of two");
     std::mem::forget(s);
 }
+
+// ---- reference stability on every 3-node shape: the address of every stored key is unchanged by lookups
+/// the five binary search trees over the keys {0,1,2} (values = 10 + key)
+fn shape3(k: u8) -> Option<Box<Node<u8, u8>>> {
+    let n = |key: u8, l: Option<Box<Node<u8, u8>>>, r: Option<Box<Node<u8, u8>>>| Some(Node::new_boxed(key, 10 + key, l, r));
+    match k {
+        0 => n(2, n(1, n(0, None, None), None), None), // left chain
+        1 => n(0, None, n(1, None, n(2, None, None))), // right chain
+        2 => n(2, n(0, None, n(1, None, None)), None), // left-right zig-zag
+        3 => n(0, None, n(2, n(1, None, None), None)), // right-left zig-zag
+        _ => n(1, n(0, None, None), n(2, None, None)), // balanced
+    }
+}
+fn key_addr(n: &Option<Box<Node<u8, u8>>>, key: u8) -> *const u8 {
+    // at most three levels
+    let mut cur = n.as_deref();
+    let mut d = 0;
+    while d < 3 {
+        match cur {
+            None => return std::ptr::null(),
+            Some(x) => {
+                if x.key == key {
+                    return &x.key as *const u8;
+                }
+                cur = if key < x.key { x.left.as_deref() } else { x.right.as_deref() };
+            }
+        }
+        d += 1;
+    }
+    std::ptr::null()
+}
+fn refstab_shape(k: u8) {
+    let mut t = new_tree_generic();
+    install(&mut t, shape3(k), 3);
+    let (p0, p1, p2) = (key_addr(t.root_ref(), 0), key_addr(t.root_ref(), 1), key_addr(t.root_ref(), 2));
+    assert!(!p0.is_null() && !p1.is_null() && !p2.is_null());
+    // one lookup of arbitrary kind with an arbitrary key (present or absent): exactly one splay
+    let a = key();
+    let kind: u8 = kani::any();
+    match kind % 3 {
+        0 => {
+            let _ = t.contains(&a);
+        }
+        1 => {
+            let _ = t.next(&a);
+        }
+        _ => {
+            let _ = t.prev(&a);
+        }
+    }
+    unsafe {
+        assert!(*p0 == 0 && *p1 == 1 && *p2 == 2, "lookups move box pointers only: every stored key keeps its address (references handed out earlier stay valid)");
+    }
+    assert!(t.len() == 3, "lookups do not change the size");
+    kani::cover!(a == 0, "smallest key looked up");
+    kani::cover!(a == 3, "absent key looked up");
+    std::mem::forget(t);
+}
+macro_rules! refstab3 {
+    ($name:ident, $k:expr) => {
+        #[kani::proof]
+        #[kani::unwind(4)]
+        fn $name() {
+            refstab_shape($k)
+        }
+    };
+}
+refstab3!(sp_refstab3_left_chain, 0);
+refstab3!(sp_refstab3_right_chain, 1);
+refstab3!(sp_refstab3_zigzag_lr, 2);
+refstab3!(sp_refstab3_zigzag_rl, 3);
+refstab3!(sp_refstab3_balanced, 4);
+
+// ---- one update on every 3-node shape (all trees over three keys, however they were reached)
+fn update_shape(k: u8) {
+    let mut t = new_tree_generic();
+    install(&mut t, shape3(k), 3);
+    let mut m = Model::new();
+    m.insert(0, 10);
+    m.insert(1, 11);
+    m.insert(2, 12);
+    if kani::any() {
+        ins(&mut t, &mut m);
+    } else {
+        rem(&mut t, &mut m);
+    }
+    q_shape(&t, &m);
+    kani::cover!(m.len() == 2, "a key was removed");
+    kani::cover!(m.len() == 4, "a new key was inserted");
+    std::mem::forget(t);
+}
+/// one query on every 3-node shape
+fn query_shape(k: u8) {
+    let mut t = new_tree_generic();
+    install(&mut t, shape3(k), 3);
+    let mut m = Model::new();
+    m.insert(0, 10);
+    m.insert(1, 11);
+    m.insert(2, 12);
+    let q = key();
+    let kind: u8 = kani::any();
+    match kind % 3 {
+        0 => assert!(t.get(&q).copied() == m.get(q), "get agrees with the reference map"),
+        1 => assert!(t.next(&q).map(|(a, b)| (*a, *b)) == m.next(q), "next agrees with the reference map"),
+        _ => assert!(t.prev(&q).map(|(a, b)| (*a, *b)) == m.prev(q), "prev agrees with the reference map"),
+    }
+    q_shape(&t, &m);
+    kani::cover!(q == 3, "absent key queried");
+    std::mem::forget(t);
+}
+macro_rules! shape3_h {
+    ($name:ident, $f:ident, $k:expr) => {
+        #[kani::proof]
+        #[kani::unwind(5)]
+        fn $name() {
+            $f($k)
+        }
+    };
+}
+shape3_h!(sp_update3_left_chain, update_shape, 0);
+shape3_h!(sp_update3_right_chain, update_shape, 1);
+shape3_h!(sp_update3_zigzag_lr, update_shape, 2);
+shape3_h!(sp_update3_zigzag_rl, update_shape, 3);
+shape3_h!(sp_update3_balanced, update_shape, 4);
+shape3_h!(sp_query3_left_chain, query_shape, 0);
+shape3_h!(sp_query3_right_chain, query_shape, 1);
+shape3_h!(sp_query3_zigzag_lr, query_shape, 2);
+shape3_h!(sp_query3_zigzag_rl, query_shape, 3);
+shape3_h!(sp_query3_balanced, query_shape, 4);
